@@ -4,7 +4,7 @@ use crate::core::{DynScenario, Tier};
 use crate::scen;
 
 pub fn all_scenarios() -> Vec<Box<dyn DynScenario>> {
-    vec![Box::new(scen::c16::C16), Box::new(scen::c14::C14), Box::new(scen::c02::C02), Box::new(scen::c03::C03), Box::new(scen::c05::C05), Box::new(scen::c06::C06), Box::new(scen::c07::C07), Box::new(scen::c08::C08), Box::new(scen::c09::C09), Box::new(scen::c10::TdScen { mode: 0 }), Box::new(scen::c10::TdScen { mode: 1 }), Box::new(scen::c12::C12), Box::new(scen::c13::C13), Box::new(scen::c11::C11)]
+    vec![Box::new(scen::c16::C16), Box::new(scen::c14::C14), Box::new(scen::c02::C02), Box::new(scen::c03::C03), Box::new(scen::c05::C05), Box::new(scen::c06::C06), Box::new(scen::c07::C07), Box::new(scen::c08::C08), Box::new(scen::c09::C09), Box::new(scen::c10::TdScen { mode: 0 }), Box::new(scen::c10::TdScen { mode: 1 }), Box::new(scen::c12::C12), Box::new(scen::c13::C13), Box::new(scen::c11::C11), Box::new(scen::c11::C17Extremes), Box::new(scen::c18::C18)]
 }
 
 pub fn find_scenario(name: &str) -> Option<Box<dyn DynScenario>> {
@@ -18,6 +18,8 @@ pub struct Part {
     pub thorough: &'static [&'static str],
     /// scale the scenario's default run count (per mille) when used for this property
     pub scale_pm: u64,
+    /// count only panics / aborts of this part for the property (C17 re-runs other properties' scenarios)
+    pub panic_only: bool,
 }
 
 pub struct PropSpec {
@@ -36,7 +38,8 @@ const BOTH: &[&str] = &["release", "armed"];
 const ARMED: &[&str] = &["armed"];
 
 pub fn property(id: &str) -> Option<PropSpec> {
-    let p = |scenario, quick, thorough| Part { scenario, quick, thorough, scale_pm: 1000 };
+    let p = |scenario, quick, thorough| Part { scenario, quick, thorough, scale_pm: 1000, panic_only: false };
+    let pp = |scenario, scale_pm| Part { scenario, quick: BOTH, thorough: BOTH, scale_pm, panic_only: true };
     Some(match id {
         "C16" => PropSpec {
             id: "C16",
@@ -174,6 +177,38 @@ pub fn property(id: &str) -> Option<PropSpec> {
             components_real: vec!["serialize / deserialize of every family", "all accessors", "update / merge / union paths applied after a restore", "CpcWrapper::new"],
             components_stub: vec!["framed checkpoint store, write cache, WAL", "crash injector", "never-crashed twin (real library, same history) as the oracle", "independent decoders for non-canonical layouts"],
         },
+        "C17" => PropSpec {
+            id: "C17",
+            level: "exploration",
+            parts: vec![
+                p("c17_extremes", BOTH, BOTH),
+                pp("c02_hll_replicas", 250),
+                pp("c03_hll_union", 250),
+                pp("c05_cpc_replicas", 250),
+                pp("c06_cpc_union", 250),
+                pp("c07_frequent_items", 250),
+                pp("c08_count_min", 250),
+                pp("c09_bloom", 250),
+                pp("c10_tdigest", 250),
+                pp("c15_tdigest", 250),
+                pp("c11_roundtrip", 250),
+                pp("c12_layout", 250),
+                pp("c13_foreign_images", 250),
+            ],
+            rule: "every simulated scenario of the other claimed properties (HLL replicas and unions, CPC replicas and unions, Frequent Items / Count-Min / Bloom / t-digest clusters, crash-restart round trips, layout and foreign-image deliveries) is executed in valid-operations-only form in BOTH build profiles - release, and 'armed' = debug-assertions + overflow-checks on - with every library call under a panic guard; plus the dedicated c17_extremes scenario: the crash/restart history generator pinned to the documented configuration extremes (HLL lg_k 4 and 21, CPC lg_k 4, 16, 21, theta lg_k 5, t-digest k = 10, Frequent Items map size 8, Bloom 1 bit / 1 hash, Count-Min 1 x 3 with u8 / i8 / u16 / i16 counters), with staircase / column fills that cross every mode transition at lg_k 21. Any panic raised inside the library (class = source location and statement) is the violation; for c17_extremes the twin comparison stays armed so that silent wrap-around in the release profile surfaces as a mismatch. evaluations = runs over all parts and both profiles; non-trivial / distinct as defined by each scenario.",
+            assumptions: vec!["valid use = the preconditions of DESIGN.md Appendix C; damaged images are C14's business and never generated here", "model mismatches found by the re-run scenarios are reported by their own property, not by C17 (only panics / aborts count for those parts)"],
+            components_real: vec!["the whole public API of every family, in both build profiles"],
+            components_stub: vec!["the harness components of the re-run scenarios", "panic hook + catch_unwind guard"],
+        },
+        "C18" => PropSpec {
+            id: "C18",
+            level: "exploration",
+            parts: vec![p("c18_sizes", REL, BOTH)],
+            rule: "one run = one long-lived worker (HLL lg_k 4..=14 x type, CPC lg_k 4..=12, theta lg_k 5..=12 x resize factor, Frequent Items map 8..=1024 x item kind, Bloom 1..=100000 bits, Count-Min up to 8 x 400 over all counter types) fed a stream of 1..2^18 items (2^22 in thorough; CPC up to C/K ~ 8) composed of PRNG-drawn pieces: distinct, repeated (small domain), adversarially ordered (sorted by derived coupon, ascending or descending), crafted coupons (HLL); at every power-of-two prefix and at the end the image is measured: HLL exactly 8+4c / 12+4c / 40 + k/2|3k/4+1|k + 4*aux with the promotion rule respected, theta retained <= 15/16*2k after every update and <= k after trim with compact images <= 24+8*retained, Frequent Items active <= capacity after every update and image <= 32 + capacity*(8+item), Bloom and Count-Min image length constant and as the configuration dictates; CPC images above max_serialized_bytes are counted per sketch lifetime and the batch rate is compared with the documented 0.1% (Bernstein margin 1e-9; hard limit 2x). Non-trivial = at least one item; distinct = distinct (family, modes reached, lg of stream length) keys.",
+            assumptions: vec!["t-digest size is C15's subject", "the CPC bound is empirical for hashed streams; only hashed items are used for CPC here"],
+            components_real: vec!["update paths and serialize of HllSketch, ThetaSketch/CompactThetaSketch, CpcSketch (+ max_serialized_bytes), FrequentItemsSketch, BloomFilter, CountMinSketch"],
+            components_stub: vec!["measurement tap on the wire / disk seam", "stream generators"],
+        },
         _ => return None,
     })
 }
@@ -206,6 +241,21 @@ pub fn batch_check(prop: &str, agg: &crate::core::Agg) -> Vec<crate::core::Viola
                     out.push(crate::core::Violation::new(
                         format!("C08.confidence_h{h}"),
                         format!("num_hashes {h}: {x} of {n} (item,node) pairs have estimate > truth + relative_error*total; documented rate e^-{h} = {p:.4} allows {:.0} + margin {:.0}", n * p, t),
+                    ));
+                }
+            }
+        }
+        "C18" => {
+            let n = agg.probes.get("cpc_sketches").copied().unwrap_or(0) as f64;
+            let x = agg.probes.get("cpc_sketches_with_an_image_over_max_serialized_bytes").copied().unwrap_or(0) as f64;
+            if n > 0.0 {
+                let p = 0.001;
+                let v = n * p;
+                let t = l / 3.0 + (l * l / 9.0 + 2.0 * v * l).sqrt();
+                if x > n * p + t {
+                    out.push(crate::core::Violation::new(
+                        "C18.cpc_max_serialized_bytes_rate",
+                        format!("{x} of {n} CPC sketches produced an image above max_serialized_bytes(lg_k) at some power-of-two prefix; the documented 0.1% allows {:.1} + margin {:.1}", n * p, t),
                     ));
                 }
             }
